@@ -17,6 +17,7 @@
 use std::{cmp, thread};
 use std::collections::HashMap;
 use std::fs::{self, canonicalize, create_dir_all, read_link, File, Metadata};
+use std::io::ErrorKind;
 use std::os::unix::fs::MetadataExt;
 use std::path::{Path, PathBuf};
 use std::sync::Arc;
@@ -332,7 +333,12 @@ pub fn tree_walker(
                     // would satisfy create_dir_all() if it leads to a
                     // directory, and the contents would then be copied
                     // to wherever it points, outside the destination.
-                    if target.symlink_metadata().is_ok_and(|m| m.file_type().is_symlink()) {
+                    let in_the_way = match target.symlink_metadata() {
+                        Ok(m) => m.file_type().is_symlink(),
+                        Err(e) if e.kind() == ErrorKind::NotFound => false,
+                        Err(e) => return Err(e.into()),
+                    };
+                    if in_the_way {
                         let msg = format!("Error creating target directory: {:?} is a symbolic link", target);
                         error!("{msg}");
                         return Err(XcpError::CopyError(msg).into())
